@@ -800,6 +800,11 @@ def _masks_hfs_intersection(sym, ts, Ds, hfs):
         keeped_ts.append(tuple(keeped_t))
         keeped_Ds.append(tuple(keeped_D))
         _mask_falsify_mismatches_(ma0, ma1)
+    # charges and dimensions kept at every node of the tree, in the order of the tree; leafs are known, fused nodes follow below
+    pos = list(range(len(tree)))  # consumed together with the tree: position in the original tree of every remaining node
+    leafs = iter(zip(keeped_ts, keeped_Ds))
+    node_ts, node_Ds = zip(*[next(leafs) if l == 1 else (None, None) for l in tree[1:]])
+    node_ts, node_Ds = [None] + list(node_ts), [None] + list(node_Ds)
 
     # lists to be consumed during parsing of the tree
     op = list(hfs[0].op)
@@ -816,26 +821,28 @@ def _masks_hfs_intersection(sym, ts, Ds, hfs):
         tt = [tuple(t1.pop(it) for _ in range(no)) for t1 in t]
         DD = [tuple(D1.pop(it) for _ in range(no)) for D1 in D]
         mss = [[msk.pop(io) for _ in range(no)] for msk in msks]
+        children = [pos.pop(it) for _ in range(no)]  # the nodes being fused; their parent is pos[it - 1]
+        kts, kDs = tuple(node_ts[n] for n in children), tuple(node_Ds[n] for n in children)
         assert op[it - 1] in 'sp', 'Sanity check'
         if op[it - 1] == 'p':
             lss = [_leg_structure_combine_charges_prod(sym, tt1, DD1, ss1, t1[it - 1], s1[it - 1])
                    for tt1, DD1, ss1, t1, s1 in zip(tt, DD, ss, t, s)]
             ma = [_merge_masks_prod(sym, ls1, ms1) for ls1, ms1 in zip(lss, mss)]
-            reduced_ls = _leg_structure_combine_charges_prod(sym, tuple(keeped_ts[:no]), tuple(keeped_Ds[:no]), ss[0], t[0][it - 1], s[0][it - 1])
+            reduced_ls = _leg_structure_combine_charges_prod(sym, kts, kDs, ss[0], t[0][it - 1], s[0][it - 1])
         else:  # op[it - 1] == 's':
             lss = [_leg_structure_combine_charges_sum(tt1, DD1) for tt1, DD1, in zip(tt, DD)]
             ma = [_merge_masks_sum(ls1, ms1) for ls1, ms1 in zip(lss, mss)]
             # a direct sum records the charges of its summands; sectors that the summed leg itself no longer holds are not part of the space
             ma = [{tk: mk for tk, mk in ma1.items() if tk in t1[it - 1]} for ma1, t1 in zip(ma, t)]
-            reduced_ls = _leg_structure_combine_charges_sum(tuple(keeped_ts[:no]), tuple(keeped_Ds[:no]))
+            reduced_ls = _leg_structure_combine_charges_sum(kts, kDs)
         _mask_falsify_mismatches_(ma[0], ma[1])
         msks[0].insert(io, ma[0])
         msks[1].insert(io, ma[1])
 
-        keeped_ts.insert(0, reduced_ls.t)
-        keeped_Ds.insert(0, reduced_ls.D)
+        node_ts[pos[it - 1]] = reduced_ls.t
+        node_Ds[pos[it - 1]] = reduced_ls.D
     # Only the final leaf is left in msks[0] and msks[1]
-    new_hfs = [_Fusion(hf.tree, hf.op, hf.s, tuple(keeped_ts[1:]), tuple(keeped_Ds[1:])) for hf in hfs]
+    new_hfs = [_Fusion(hf.tree, hf.op, hf.s, tuple(node_ts[1:]), tuple(node_Ds[1:])) for hf in hfs]
     return msks[0].pop(), msks[1].pop(), new_hfs
 
 
